@@ -17,6 +17,11 @@ use vlib::props::{SrcProp, Which};
 use vlib::props2::{C05, C18};
 use vlib::syn;
 
+/// Where evidence/ and replays/ are written: VERIF_OUT (the mutant self-test redirects them) or the root.
+fn out_dir() -> PathBuf {
+    std::env::var("VERIF_OUT").map(PathBuf::from).unwrap_or_else(|_| root_dir())
+}
+
 fn root_dir() -> PathBuf {
     if let Ok(r) = std::env::var("VERIF_ROOT") {
         return PathBuf::from(r);
@@ -71,7 +76,7 @@ impl Ctx {
         let corpus = Corpus::load(&root.join("corpus"));
         let known = Known::load(&root.join("KNOWN_FINDINGS.txt"));
         let stack = if id == "C05" { Some(8 << 20) } else { None };
-        let cli = root.join("harness/target-cli/release/typstyle");
+        let cli = std::env::var("VERIF_CLI").map(PathBuf::from).unwrap_or_else(|_| root.join("harness/target-cli/release/typstyle"));
         Ctx {
             root,
             corpus,
@@ -207,6 +212,10 @@ fn run(id: &str, tier: Tier) -> i32 {
         .map(|rd| rd.flatten().map(|e| e.path()).filter(|p| p.extension().is_some_and(|x| x == "json")).collect())
         .unwrap_or_default();
     files.sort();
+    if std::env::var("VERIF_NO_REGRESS").is_ok() {
+        // self-test only: measure what the generators find on their own
+        files.clear();
+    }
     for f in &files {
         regress_replayed += 1;
         let v: Value = std::fs::read(f).ok().and_then(|b| serde_json::from_slice(&b).ok()).unwrap_or(Value::Null);
@@ -282,7 +291,7 @@ fn run(id: &str, tier: Tier) -> i32 {
         }))
         .unwrap();
         let h = syn::fnv64(text.as_bytes());
-        let dir = ctx.root.join("replays").join(id);
+        let dir = out_dir().join("replays").join(id);
         std::fs::create_dir_all(&dir).ok();
         let path = dir.join(format!("{h:016x}.json"));
         std::fs::write(&path, text).ok();
@@ -306,7 +315,7 @@ fn run(id: &str, tier: Tier) -> i32 {
     }
 
     out.wall_s = t0.elapsed().as_secs_f64();
-    let ev_path = ctx.root.join("evidence").join(format!("{id}.json"));
+    let ev_path = out_dir().join("evidence").join(format!("{id}.json"));
     engine::write_evidence(
         &ev_path,
         id,
